@@ -100,6 +100,10 @@ static void handler(const Line& t, Out& o) {
   case 11: { // union u update with sketch r
     getu(t.at(1)).update(get(t.at(2)));
     o.R(1); break; }
+  case 16: { // union u update with an rvalue: update(std::move(copy of sketch r))
+    vo_t tmp(get(t.at(2)));
+    getu(t.at(1)).update(std::move(tmp));
+    o.R(1); break; }
   case 12: { // get_result of u into register r2
     std::unique_ptr<vo_t> p(new vo_t(getu(t.at(1)).get_result()));
     regs[(long)t.at(2)] = std::move(p);
